@@ -692,6 +692,22 @@ func c40Space(c *Ctx, hash, calc *ssa.Function, sc *c40Scale, off int64, okCalc 
 		}
 	}
 	if width < 0 || width >= 64 {
+		// a sign removed by negation instead of a mask: -MinInt is MinInt, the one value that stays negative
+		var neg *ssa.UnOp
+		for _, r := range g12Returns(hash) {
+			backSlice(r.Results[0], sliceLocal, func(x ssa.Value) {
+				if u, ok := x.(*ssa.UnOp); ok && u.Op == token.SUB {
+					if w, unsigned := intWidth(u.Type()); w > 0 && !unsigned {
+						neg = u
+					}
+				}
+			})
+		}
+		if neg != nil {
+			w, _ := intWidth(neg.Type())
+			c.Bad("C40.space", "hashPacket:range", c.instrPos(neg), fmt.Sprintf("the sign of the hash is removed by negating a signed %d-bit value: for the input that mixes to -2^%d the negation wraps and the hash stays negative, below every bucket bound - that flow always goes to the first gateway (also when its buckets were never calculated)", w, w-1))
+			return
+		}
 		c.Unknown("C40.space", "hashPacket:range", "the sign / high bits of the hash are not provably zero by bit provenance (mask, shift): its range cannot be compared with the bucket scale")
 		return
 	}
